@@ -105,7 +105,9 @@ def _apply_transforms(e, st, pv, transforms):
             raise Unsupported("symbolic poll result under Map/Fuse")
         if d != 0:
             continue
-        if tr[0] == 'map':
+        if tr[0] == 'wrap_ok':
+            pv = VAgg(name='Poll', vname='Ready', disc=0, fields={('v', 'Ready', 0): VAgg(name='Result', vname='Ok', disc=0, fields={('v', 'Ok', 0): e.get_field(pv, ('v', 'Ready', 0))})})
+        elif tr[0] == 'map':
             pv = VAgg(name='Poll', vname='Ready', disc=0,
                       fields={('v', 'Ready', 0): apply_fn_item(e, st, tr[1], e.get_field(pv, ('v', 'Ready', 0)))})
         elif tr[0] == 'fuse':
@@ -132,6 +134,17 @@ def poll_into(e, st, ref, cx, t, transforms=()):
         return poll_into(e, st, _target_of_pin(e, st, fut), cx, t, transforms)
     if isinstance(fut, VRef):
         return poll_into(e, st, fut, cx, t, transforms)
+    if isinstance(fut, VAgg) and fut.name == 'Abortable':
+        flag = st.objs[fut.extra['oid']].extra
+        if flag['aborted']:
+            pv = VAgg(name='Poll', vname='Ready', disc=0, fields={('v', 'Ready', 0): VAgg(name='Result', vname='Err', disc=1, fields={('v', 'Err', 0): VAgg(name='Aborted')})})
+            pv = _apply_transforms(e, st, pv, transforms)
+            f2 = st.frames[-1]
+            e.write_place(st, f2, t.dest, pv)
+            f2.bb = t.target
+            return None
+        st.meta['blocked_on'] = st.meta.get('blocked_on', frozenset()) | {fut.extra['oid']}
+        return poll_into(e, st, VRef(ref.root, ref.path + (('f', 0),), True), cx, t, (('wrap_ok',),) + tuple(transforms))
     fn = None
     if isinstance(fut, VAgg) and fut.extra and fut.extra.get('body') is not None:
         fn = fut.extra['body']
@@ -192,6 +205,14 @@ def apply_fn_item(e, st, f, x):
     m = re.search(r'__PrivResult(?:::<.*>)?::_(\d+)$', txt, re.S)
     if m:
         return VAgg(name='__PrivResult', vname=f"_{m.group(1)}", disc=int(m.group(1)), fields={('v', f"_{m.group(1)}", 0): x})
+    body, clo = closure_body_of(e, st, f)
+    if body is not None:
+        # only closures whose body is trivially `()` (e.g. `|_| ()`) can be applied without a frame
+        blocks = [b for b in body.blocks.values() if not b.cleanup]
+        calls = [b for b in blocks if b.term is not None and b.term.kind == 'call']
+        assigns0 = [st_ for b in blocks for st_ in b.stmts if st_.kind == 'assign' and st_.place.local == 0]
+        if not calls and body.ret_type.strip() == '()' and all(a.rv.kind in ('tuple', 'use') for a in assigns0):
+            return UNIT
     raise Unsupported(f"apply fn item {txt[:80]!r}")
 
 
